@@ -214,4 +214,20 @@ def check(c):
         if isinstance(it, A.For) and it.var in p.variables:
             mm.append(canon.Mismatch("loop-variable-in-variables", "%r still in variables" % it.var))
     out.violations.extend(K.mismatch_violations("loop-vs-reference", mm, text))
+    if not out.violations and len(p.operations) == len(q.operations):
+        # the operations of the loop are separate objects like those of the unrolled text: the same in-place edit of every
+        # operation (first mode += 1000*(position+1)) leaves the two programs equal
+        try:
+            for prog in (p, q):
+                for i, o in enumerate(prog.operations):
+                    if isinstance(o.get("modes"), list) and o["modes"]:
+                        o["modes"][0] = int(o["modes"][0]) + 1000 * (i + 1)
+            a_ = [[int(m) for m in o["modes"]] for o in p.operations]
+            b_ = [[int(m) for m in o["modes"]] for o in q.operations]
+        except Exception as e:
+            raise HarnessError("C06 edit: %r" % e)
+        if a_ != b_:
+            out.violations.append(Violation("loop-vs-unrolled|after-the-same-edit-of-every-operation",
+                                            "after adding 1000*(k+1) to the first mode of operation k in both programs the modes are %r (loop) "
+                                            "vs %r (unrolled): operations produced by the loop share state\n%s" % (a_, b_, text)))
     return out
